@@ -20,6 +20,7 @@ fn main() {
         "C02" => props::c02::run(&cfg),
         "C04" => props::c04::run(&cfg),
         "C05" => props::c05::run(&cfg),
+        "C06" => props::c06::run(&cfg),
         "C07" => props::c07::run(&cfg),
         "C09" => props::c09::run(&cfg),
         "C17" => props::c17::run(&cfg),
